@@ -13,20 +13,38 @@ MANIFEST = dict(
     text="Theorems about the Gallina model of FileResponse on WSGI, ASGI and ASGI+zero-copy: declared Content-Length = bytes "
          "sent (incl. the multipart/byteranges length formula), body = whole file / the slice / the parts with matching "
          "Content-Range, 400/416 carry no file data, HEAD = same headers with empty body, Range honoured iff If-Range is absent or "
-         "equals a validator; for every file, header, method and chunk size >= 1. The model is compared with the live classes "
-         "(real files, real descriptors for zero-copy) on generated requests.",
+         "equals a validator; for every file, header, method and chunk size >= 1. A FileResponse object used as an application "
+         "is modelled with its persistent header mapping (C02/Reuse.v: __init__, then each handler's writes in code order): for "
+         "every history of earlier requests, unbounded, the object's answer equals a fresh object's (status, chunks/messages, "
+         "header multiset and sorted header list: reuse_history_independent), a fresh object is the single-request model "
+         "(reuse_fresh_is_single), Content-Range appears exactly in a single-range 206 and in 416, Content-Type is "
+         "multipart/byteranges exactly for several ranges, Content-Length = body length after any history "
+         "(reuse_framing_truthful); the code before 02f930e is refuted by a witness and in general (reuse_orig_refuted, "
+         "reuse_orig_stale: a stale Content-Range in the 200 / multipart answer that follows a single-range answer). The model is "
+         "compared with the live classes (real files, real descriptors for zero-copy) on generated requests, including requests "
+         "to an object that has answered 1-3 other requests before; the oracle also demands that such an answer equals the "
+         "answer of a fresh object.",
     note="Modelled, not verified: os.read/lseek/file.read as list slicing on a file whose length equals st_size; formatdate, SHA-1 "
          "ETag, guess_type and urllib quote enter as strings computed by the harness with the stdlib; chunk_size >= 1 "
-         "(chunk_size = 0 makes the emulated sendfile loop spin: configuration error, modelled as fuel exhaustion).",
-    technique="Coq proof (loop induction on fuel, list slicing lemmas, length arithmetic) + executable model/implementation correspondence",
+         "(chunk_size = 0 makes the emulated sendfile loop spin: configuration error, modelled as fuel exhaustion). Reuse: "
+         "requests to one object are answered one after the other, each iterated to its first chunk at least (the WSGI handlers "
+         "are generators: the mapping is written when the iteration starts); two threads of a WSGI server inside the same "
+         "object's handlers at once are not modelled; header values without CR/LF/NUL (MutableHeaders.__setitem__ raises "
+         "otherwise); the object's cookies are not modelled (no handler writes them).",
+    technique="Coq proof (loop induction on fuel, list slicing lemmas, length arithmetic; for the reused object an invariant on the "
+              "header mapping as a finite map: every handler overwrites or removes each of the three keys it writes and touches "
+              "no other) + executable model/implementation correspondence",
     ref="5/C02")
 RULE = ("cases: file sizes {0,1,2,cs-1,cs,cs+1,2cs,2cs+1,...} x chunk sizes {1,2,3,7,64} x Range headers (absent, empty, the "
         "C03 spec alphabet with 1..3 specs, random sets, malformed text) x If-Range {absent, ETag, weak ETag, Last-Modified, "
-        "stale date, garbage, empty} x GET/HEAD; each case runs WSGI, ASGI and ASGI with the zero-copy extension; "
-        "non-trivial = a Range header is present")
+        "stale date, garbage, empty} x GET/HEAD; reused object: every ordered pair of 8 request kinds (whole, single, suffix, "
+        "several, HEAD whole, HEAD several, 416, 400) on 2 file sizes, random histories of 2-3 requests, earlier requests with "
+        "an If-Range; each case runs WSGI, ASGI and ASGI with the zero-copy extension, a reused-object case also on a fresh "
+        "object; non-trivial = a Range header is present or the object has answered before")
 TRUSTED = ["model of file reads as list slicing; the harness-side server emulation for http.response.zerocopysend (lseek+read on the descriptor)"]
 ASSUMPTIONS = ["chunk_size >= 1", "the file's length equals stat_result.st_size for the duration of the response",
-               "C03's theorem range_canonical (ranges handed to the body generators are non-empty and inside the file)"]
+               "C03's theorem range_canonical (ranges handed to the body generators are non-empty and inside the file)",
+               "one object answers its requests one after the other (no two threads inside the same object's handlers)"]
 EXHAUSTIVE = {"quick": False, "thorough": False}
 
 BOUNDARY = "b0undaryb0und"
@@ -126,6 +144,12 @@ def cases(tier, rng):
             pre = [rng.choice(kinds) for _ in range(rng.randrange(2, 4))]
             h, r = rng.choice(kinds)
             yield "reused-object", mk(h, r, None, size, rng.choice([1, 3, 64])) + [[[ph, [pr] if pr else []] for ph, pr in pre]]
+        # earlier requests with an If-Range (honoured / not honoured), and an If-Range on the request itself
+        etag = validators(size)[0]
+        for pifr in (etag, "garbage"):
+            for h, r in kinds[:4]:
+                yield "reused-object", mk(h, r, None, size, 3) + [[[False, ["bytes=1-3"], [pifr]]]]
+                yield "reused-object", mk(h, r, "garbage", size, 3) + [[[False, ["bytes=1-3"], [pifr]], [True, []]]]
 
 
 def search_cases(tier, rng, mism):
@@ -158,6 +182,11 @@ def _hdrs(pairs):
     return sorted(out)
 
 
+def prelude(case):
+    """the requests the same response object answers first: (head, [range]?, [if-range]?)"""
+    return [(bool(p[0]), list(p[1]), list(p[2]) if len(p) > 2 else []) for p in (case[12] if len(case) > 12 else [])]
+
+
 def run_wsgi(case, head):
     import baize.wsgi.responses as W
     W.random_choices = lambda pop, k: list(BOUNDARY[:k])
@@ -165,11 +194,13 @@ def run_wsgi(case, head):
     path = file_for(data)
     st = os.stat(path)
     resp = W.FileResponse(path, content_type=ctype, download_name=name or None, chunk_size=cs, stat_result=st)
-    for phead, prng in (case[12] if len(case) > 12 else []):
+    for phead, prng, pifr in prelude(case):
         # a FileResponse object may serve as an application: it has answered other requests before this one
         penv = util.wsgi_environ("HEAD" if phead else "GET")
         if prng:
             penv["HTTP_RANGE"] = prng[0]
+        if pifr:
+            penv["HTTP_IF_RANGE"] = pifr[0]
         util.call_wsgi(resp, penv)
     env = util.wsgi_environ("HEAD" if head else "GET")
     if rng:
@@ -192,8 +223,10 @@ def run_asgi(case, head, zc):
     path = file_for(data)
     st = os.stat(path)
     resp = A.FileResponse(path, content_type=ctype, download_name=name or None, chunk_size=cs, stat_result=st)
-    for phead, prng in (case[12] if len(case) > 12 else []):
+    for phead, prng, pifr in prelude(case):
         phs = [(b"range", prng[0].encode("latin-1"))] if prng else []
+        if pifr:
+            phs.append((b"if-range", pifr[0].encode("latin-1")))
         util.call_asgi(resp, util.http_scope("HEAD" if phead else "GET", headers=phs,
                                              extensions={"http.response.zerocopysend": {}} if zc else None))
     hs = []
@@ -217,8 +250,17 @@ def run_asgi(case, head, zc):
 
 
 def ENCODE(case):
-    # what the same response object answered before is not the model's business: an answer is a function of the request
-    return core.enc_line(case[:12])
+    # the model is stateful (C02/Reuse.v): what the same response object answered before goes with the case
+    if len(case) <= 12:
+        return core.enc_line(case[:12])
+    return core.enc_line(list(case[:12]) + [[[1 if h else 0, r] + ([i] if i else []) for h, r, i in prelude(case)]])
+
+
+def _versus_fresh(o, f):
+    """[] when the answer equals the answer of a fresh object, else what the fresh object answered"""
+    if o == f:
+        return []
+    return ["fresh"] + list(f[:2]) + [1 if o[2:] == f[2:] else 0]
 
 
 def impl(case):
@@ -229,6 +271,11 @@ def impl(case):
         obs.append([o[:2] == x[:2] for o, x in zip(obs, g)])
     else:
         obs.append([])
+    if len(case) > 12:
+        # the same request to an object that has answered nothing yet
+        bare = case[:12]
+        fresh = [run_wsgi(bare, head), run_asgi(bare, head, False), run_asgi(bare, head, True)]
+        obs.append([_versus_fresh(o, f) for o, f in zip(obs[:3], fresh)])
     return obs
 
 
@@ -280,7 +327,12 @@ def check_one(case, o, which):
             return (which + "-content-length", "%s: Content-Length %r but %d body bytes sent (Range=%r size=%d cs=%d)" % (which, cl, len(body), rng, size, cs))
     if head and body:
         return (which + "-head-body", "%s: HEAD response carries %d body bytes (status %d)" % (which, len(body), status))
+    if status == 200 or (status == 206 and "content-range" in hd):
+        if hd.get("content-type") != [ctype]:
+            return (which + "-content-type", "%s: %d with Content-Type %r, the file is %r" % (which, status, hd.get("content-type"), ctype))
     if status == 200:
+        if "content-range" in hd:
+            return (which + "-200-content-range", "%s: 200 with Content-Range %r" % (which, hd["content-range"]))
         if cl != [str(size)]:
             return (which + "-200-length", "%s: 200 with Content-Length %r for a %d byte file" % (which, cl, size))
         if not head and body != data:
@@ -309,8 +361,8 @@ def check_one(case, o, which):
         else:
             ct = hd.get("content-type", [""])[0]
             m = re.match(r"^multipart/byteranges; boundary=(.+)$", ct)
-            if not m:
-                return (which + "-206-type", "%s: 206 without Content-Range and content-type %r" % (which, ct))
+            if not m or len(hd.get("content-type", [])) != 1:
+                return (which + "-206-type", "%s: 206 without Content-Range and content-type %r" % (which, hd.get("content-type")))
             if not head:
                 b = m.group(1).encode("latin-1")
                 # parse the multipart/byteranges body with the declared ranges as guide
@@ -338,7 +390,16 @@ def check_one(case, o, which):
 def oracle(case, obs):
     if obs and obs[0] == "driver-exception":
         return ("driver-exception-" + str(obs[1]), str(obs))
-    for o, which in zip(obs, ("wsgi", "asgi", "asgi-zerocopy")):
+    if len(case) > 12 and len(obs) > 4:
+        # history independence: the object answers like one that has answered nothing before
+        for d, o, which in zip(obs[4], obs, ("wsgi", "asgi", "asgi-zerocopy")):
+            if d:
+                return ("reused-object-differs-from-fresh",
+                        "%s: after answering %r the same object answers %r with status/headers %r; a fresh object answers %r "
+                        "(rest of the answer %s)" % (which, [("HEAD" if h else "GET", r, i) for h, r, i in prelude(case)],
+                                                     ("HEAD" if case[1] else "GET", case[2], case[3]), o[:2], d[1:3],
+                                                     "equal" if d[3] else "differs too"))
+    for o, which in zip(obs[:3], ("wsgi", "asgi", "asgi-zerocopy")):
         v = check_one(case, o, which)
         if v is not None:
             return v
@@ -351,7 +412,7 @@ def oracle(case, obs):
 
 
 def nontrivial(case, obs):
-    return bool(case[2])
+    return bool(case[2]) or len(case) > 12
 
 
 def shrink(case):
